@@ -52,6 +52,10 @@ def ka_scenarios(rng, n):
         if rng.random() < .5:
             ops.append({'op': 'stop_and_join'})
         sc = {'seed': rng.randint(0, 10 ** 6), 'pool': pool, 'ops': ops, 'same_func': rng.random() < .6, 'relax_shape': True}
+        if sc['same_func'] and rng.random() < .4:
+            # the calls share their task function but bring hooks that are new objects with every call (same code, same qualified name):
+            # each call's own hooks are the ones that count from then on
+            sc['fresh_hooks'] = True
         if rng.random() < .12:
             # each call's own timeouts: the deferred worker_exit (1 s) runs at stop_and_join under the LAST call's exit timeout (100 s),
             # not under the 0.3 s of an earlier call
@@ -173,6 +177,21 @@ def judge(chk, sc, o):
                               'without keep_alive every working instance runs init and exit', input_class='hooks_without_keep_alive')
         prev_tokens, prev_ka, prev_restarted = set(oo.get('instances_alive') or []) | toks, ka, restarted
         prev_inited = {c[3] for c in calls if c[1] == 'init' and c[0] <= opi}
+    # hooks that are new objects with every call (same code, same name): the hooks that run are those of the call they run for -
+    # worker_init in an instance started during call k is call k's, the deferred worker_exit at stop_and_join is the latest call's
+    if sc.get('fresh_hooks') and all(x.get('outcome') == 'ok' for x in o.get('ops', [])) and len(o.get('ops', [])) == len(sc['ops']):
+        map_ops = [i for i, op in enumerate(sc['ops']) if op['op'] in oracles.MAPS]
+        stale_init = [(c[0], c[11], c[2]) for c in calls if c[1] == 'init' and c[0] is not None and c[11] in map_ops and sc['ops'][c[11]].get('init') and c[0] != c[11]]
+        if stale_init:
+            chk.violation('call_runs_with_its_own_settings', case, {'init_hook_of_call__ran_during_call__worker': stale_init[:4]},
+                          "an instance started during a call runs that call's worker_init", input_class='stale_hook_init')
+        if sc['ops'][-1]['op'] == 'stop_and_join' and map_ops:
+            last, stop = map_ops[-1], len(sc['ops']) - 1
+            at_stop = [c for c in calls if c[1] == 'exit' and c[11] == stop and c[0] is not None]
+            wrong = [(c[0], c[2]) for c in at_stop if c[0] != last or not sc['ops'][last].get('exit')]
+            if wrong:
+                chk.violation('call_runs_with_its_own_settings', case, {'exit_hook_of_call__worker': wrong[:4], 'latest_call': last},
+                              "the worker_exit that runs when the kept-alive workers are stopped is the latest call's", input_class='stale_hook_exit')
     # the deferred worker_exit is not lost: once stop_and_join() has returned, every instance that ran a task has run its exit
     # function exactly once (at retirement or now)
     if sc['ops'] and sc['ops'][-1]['op'] == 'stop_and_join' and len(o.get('ops', [])) == len(sc['ops']) and o['ops'][-1].get('outcome') == 'ok' \
